@@ -211,7 +211,7 @@ class Check:
                 if key in seen:
                     continue
                 seen.add(key)
-                if len(seen) > 20:
+                if len(seen) > int(os.environ.get("VERIF_MAX_REPORT", "40")):
                     break
                 digest = hashlib.sha256(json.dumps([sig, replay], sort_keys=True).encode()).hexdigest()[:16]
                 path = rdir / f'{digest}.json'
